@@ -143,6 +143,25 @@ fn frame_cands(t: u64, rate: usize, fperiod: usize) -> Vec<i64> {
     }
 }
 
+/// exact candidates for round(f1 / s), s given as an f64 (its exact binary value is used; both neighbours within 1e-9 of a tie)
+fn quotient_cands(f1: u64, s: f64) -> Vec<i64> {
+    let bits = s.to_bits();
+    let exp = ((bits >> 52) & 0x7ff) as i64;
+    let mant = if exp == 0 { bits & ((1u64 << 52) - 1) } else { (bits & ((1u64 << 52) - 1)) | (1u64 << 52) };
+    let e = exp.max(1) - 1075; // s = mant * 2^e
+    if mant == 0 || e > 0 || e < -100 {
+        return vec![];
+    }
+    // f1 / s = f1 * 2^-e / mant
+    let num = (f1 as u128) << ((-e) as u32).min(100);
+    let den = mant as u128;
+    let fl = num / den;
+    let rem = num % den;
+    let two = 2 * rem;
+    let dist = if two > den { two - den } else { den - two };
+    if dist * 1_000_000_000u128 <= 2 * den { vec![fl as i64, fl as i64 + 1] } else if two > den { vec![fl as i64 + 1] } else { vec![fl as i64] }
+}
+
 pub fn record(seed: u64, n: usize, mode: &str, out_path: &str) {
     let mut rng = Rng::new(seed ^ 0xd0);
     let mut out = Out::create(out_path);
@@ -176,6 +195,23 @@ pub fn record(seed: u64, n: usize, mode: &str, out_path: &str) {
             ks.push(1024);
             ks.push(*rng.pick(&[103i64, 256, 512, 2048, 4096, 51200]));
             ks.sort();
+            // through the engine: set_speed(s) for decimal speeds (not f32- or dyadic-representable), synthesized length / fperiod
+            if from_voice && it % 2 == 0 {
+                let nl = 1 + rng.below(6);
+                let lines = corpus.utterance(&mut rng, nl);
+                let mut engine = base_engine.clone();
+                let f1 = engine.synthesize(&lines[..]).map(|w| w.len() / engine.condition.get_fperiod()).unwrap_or(0);
+                let nst = lines.len() * engine.voices.global_metadata().num_states;
+                for _ in 0..4 {
+                    let milli = *rng.pick(&[400i64, 800, 1200, 1600, 300, 700, 1100, 2500, 3300]);
+                    let sp = milli as f64 / 1000.0;
+                    engine.condition.set_speed(sp);
+                    let exact = engine.condition.get_speed() == sp;
+                    let frames = engine.synthesize(&lines[..]).map(|w| w.len() / engine.condition.get_fperiod()).unwrap_or(0);
+                    out.line(&json!({"ev": "espeed", "milli": milli, "stored_exactly": exact, "f1": f1, "nstates": nst, "frames": frames,
+                                     "cands": quotient_cands(f1 as u64, sp)}));
+                }
+            }
             for k in ks {
                 let k = k.clamp(103, 51200);
                 match guarded(|| est.create(k as f64 / 1024.0)) {
